@@ -325,7 +325,7 @@ def check_property(pid, tier, seed, jobs=None, only=None):
             asyncs = [pool.apply_async(_call, (fn, a)) for fn, a in tasks]
             for (fn, a), r in zip(tasks, asyncs):
                 try:
-                    results.append(r.get(timeout=3600))
+                    results.append(r.get(timeout=900 if tier == "quick" else 5400))
                 except Exception as e:
                     results.append({"function": str(a[0]), "status": "crash", "msg": "%s: %s" % (type(e).__name__, e),
                                     "obligations": {}, "failures": []})
